@@ -1771,7 +1771,6 @@ namespace gch
         : is_uninitialized_memcpyable_iterator<U, V>
       { };
 
-#ifndef NDEBUG
       GCH_NORETURN
       static GCH_CPP20_CONSTEXPR
       void
@@ -1784,7 +1783,6 @@ namespace gch
         std::abort ();
 #endif
       }
-#endif
 
       // Note: Not restricted to (const) value_ty because the memcpy paths are also taken for
       //       contiguous ranges of other (memcpy-compatible) element types.
@@ -1844,10 +1842,10 @@ namespace gch
       {
         assert (0 <= (last - first) && "Invalid range.");
         const auto len = static_cast<std::size_t> (last - first);
-#ifndef NDEBUG
+        // Note: This must also be checked in release builds; a truncated length would make
+        //       the callers allocate too little and then copy the whole range.
         if (numeric_max<size_ty> () < len)
           throw_range_length_error ();
-#endif
         return static_cast<size_ty> (len);
       }
 
@@ -1870,10 +1868,10 @@ namespace gch
 #endif
 
         const auto len = static_cast<std::size_t> (std::distance (first, last));
-#ifndef NDEBUG
+        // Note: This must also be checked in release builds; a truncated length would make
+        //       the callers allocate too little and then copy the whole range.
         if (numeric_max<size_ty> () < len)
           throw_range_length_error ();
-#endif
         return static_cast<size_ty> (len);
       }
 
